@@ -1288,6 +1288,18 @@ func (g *G) Handler(event string, depth int) *m.Handler {
 	if !g.chance("noparams", 1, 3) {
 		for _, p := range EventParams[event] {
 			name := g.name("e")
+			if g.Cfg.Shadow && len(saved[0]) > 0 && g.chance("param-shadows-global", 1, 3) {
+				// a parameter may carry the name of a global: inside the handler it hides the global
+				cand := saved[0][g.intn("shadowedglobal", len(saved[0]))].Name
+				taken := false
+				for _, q := range hd.Params {
+					taken = taken || q.Name == cand
+				}
+				if !taken {
+					name = cand
+					g.Shadows++
+				}
+			}
 			if g.chance("underscore", 1, 3) {
 				name = "_"
 			} else {
